@@ -28,6 +28,24 @@ CHECKS = {
     "C05": ("exploration", "exhaustive table walk + property-based sampling (Hypothesis): every listed month/weekday name parsed and compared with the meaning the data declares",
             "Complete walk over all 504 locale codes x NORMALIZE on/off x SKIP_TOKENS default/[] x every single-meaning month/weekday spelling (exhaustive in the thorough tier, all languages + 20% of regional locales in quick), plus Hypothesis sampling of days/years/reference dates. 36 (language, name) pairs that fail on the pinned tree are listed as known findings; any other failing name is a violation.",
             "The data module's key is the name's meaning; harness-side overlay of locale_specific; frozen clock via module-level datetime replacement.", "DESIGN.md §4 C05"),
+    "C10": ("exploration", "metamorphic property-based testing (Hypothesis): strict vs loose parse and two distant frozen reference times; thorough walks the whole corpus x all modes",
+            "For corpus strings, generated partial dates in every language, custom-format strings and timestamps: strict(s) is None or equals loose(s); strict results (and required parts) are equal at two reference times >=10 years apart; generated strings that lack a demanded part never yield a result.",
+            "One language per case; relative-time parser off; frozen clock.", "DESIGN.md §4 C10"),
+    "C12": ("exploration", "differential property-based testing (Hypothesis) against pytz; child interpreters for the process-local zone; thorough adds an exhaustive 60x60 zone-pair grid",
+            "Ordered zone pairs x unambiguous local datetimes (DST-adjacent over-weighted) x 4 parser kinds x 3 awareness settings x optional own zone, compared with A.localize(d).astimezone(B); TIMEZONE='local' cases are run in subprocesses under 5 TZ values.",
+            "pytz is the reference; dual pytz/table names excluded; zero-delta relative phrases.", "DESIGN.md §4 C12"),
+    "C13": ("exploration", "compositional/metamorphic property-based testing (Hypothesis): multi-language result vs first successful single-language result; autodetect re-parse; locale vs language+region",
+            "Four experiments over the corpus: multi == first non-None single in priority/given order with locale membership and DEFAULT_LANGUAGES neutrality; autodetect reproducibility; locales=[loc] == languages+region with loc's own date order; languages + partly invalid region against per-language locales with loader caches reset.",
+            "Frozen clock, default settings; fallback to the plain language when lang-REGION is not listed.", "DESIGN.md §4 C13"),
+    "C14": ("exploration", "round-trip property-based testing (Hypothesis) over generated strptime formats + exhaustive walk of localised month/weekday names",
+            "Formats built from distinct directives (plus ~40 hand-listed shapes) x datetimes 1900-2100 rendered by harness code and parsed back with date_formats=[fmt] under a frozen clock and preference pairs; every single-meaning month/weekday name of every language in 3+2 formats; raw-match precedence cases. 37 localised-name findings share root causes with C05.",
+            "Frozen system clock for the missing year/current day; year-less %j and day-without-month formats are not generated (ambiguous).", "DESIGN.md §4 C14"),
+    "C15": ("exploration", "exhaustive calendar walk (thorough) / month boundaries + Hypothesis sampling (quick), differential against the conversion libraries, an independent arithmetic Jalali algorithm and day-consecutiveness",
+            "Jalali 1200-1500 and Hijri 1343-1500 dates in numeric, named-month, Persian-digit, weekday, spelled-day and time spellings parsed by JalaliCalendar/HijriCalendar and compared with convertdate/hijridate called directly; arithmetic Jalali oracle admitted per year by a self-check; next-day consecutiveness at month ends.",
+            "convertdate/hijridate are the reference conversions; valid unambiguous dates only.", "DESIGN.md §4 C15"),
+    "C18": ("exploration", "metamorphic property-based testing (Hypothesis): whitespace rewritings and all Unicode Nd digit blocks vs the base parse; thorough walks the corpus x all rewritings",
+            "Corpus strings and generated dates in every language: 9 whitespace rewritings and every decimal-digit script (enumerated from unicodedata) must give the same (date, period) as the base string, with a fixed language or autodetection.",
+            "Frozen clock; same parser instance for base and rewritten string.", "DESIGN.md §4 C18"),
     "C16": ("exploration", "exhaustive regenerate-and-compare of all generated artefacts + differential property-based test (Hypothesis) of the loaded vs rebuilt timezone table",
             "All 205 modules are regenerated with the repository's own generator and compared byte for byte; all 773 timezone entries and both search regexes are rebuilt and compared with the pickle and the imported table; every index entry is checked (exhaustive: true). A generated differential drives pop_tz_offset_from_string with both tables.",
             "Vendored pure-Python PyYAML with a YAML-1.2 resolver shim stands in for ruamel.yaml (validated by byte-for-byte reproduction).", "DESIGN.md §4 C16"),
